@@ -155,9 +155,18 @@ def lean_pipeline(pid: str, thorough: bool = False) -> dict:
             raise InfraError(f"{props} missing")
         ths = theorems_in(props)
         extra = EXTRA_MODULES.get(pid, [])
+        bridges: list[str] = []
+        import bridge as _bridge
         for m in extra:
-            ths = ths + theorems_in(LEAN / "SppModel" / "Props" / (m.replace(".", "/") + ".lean"))
-        extra_targets = [f"SppModel.Props.{m}" for m in extra]
+            f = LEAN / "SppModel" / "Props" / (m.replace(".", "/") + ".lean")
+            ths = ths + theorems_in(f)
+            for b in _bridge.bridges_for(f.read_text()):
+                if b not in bridges:
+                    bridges.append(b)
+        # bridge obligations (generated on this run): translation of the current source = frozen reference
+        for b in bridges:
+            ths = ths + theorems_in(LEAN / "SppModel" / (b.replace(".", "/", 2) + ".lean"))
+        extra_targets = [f"SppModel.Props.{m}" for m in extra] + [f"SppModel.{b}" for b in bridges]
         # generated obligations the property depends on (none failing = 0 extra)
         res["obligations"] = len(ths)
         target = f"SppModel.Props.{pid}"
